@@ -1,8 +1,9 @@
 #!/bin/sh
-# Run every claimed check once (quick tier) on the current tree; prints one line per check.
+# Run every claimed check once (tier $1, default quick) on the current tree; one line per check: id, exit code, seconds, verdict lines.
 cd "$(dirname "$0")/.."
 for id in $(python3 -c "import json; print(' '.join(c['property_id'] for c in json.load(open('MANIFEST.json'))['checks']))"); do
   start=$(date +%s)
-  out=$(./check $id --tier ${1:-quick} 2>&1 | grep -E "^VIOLATION|^$id |^INFRA" | tr '\n' '|' | cut -c1-200)
-  echo "$id rc? $(( $(date +%s) - start ))s :: $out"
+  ./check $id --tier ${1:-quick} > /tmp/run_all_$id.log 2>&1; rc=$?
+  out=$(grep -E "^VIOLATION|^$id |^INFRA" /tmp/run_all_$id.log | tr '\n' '|' | cut -c1-300)
+  echo "$id rc=$rc $(( $(date +%s) - start ))s :: $out"
 done
